@@ -302,17 +302,19 @@ func (c *Client) ocppMessageHandler(data []byte) error {
 		case CALL_RESULT:
 			callResult := message.(*CallResult)
 			log.Debugf("handling incoming CALL RESULT [%s]", callResult.UniqueId)
-			c.dispatcher.CompleteRequest(callResult.GetUniqueId()) // Remove current request from queue and send next one
+			// Deliver the response before the next request is released: a conclusion of the next request
+			// (e.g. a failed write) must not overtake this one on its way to the callbacks, which are matched by order.
 			if c.responseHandler != nil {
 				c.responseHandler(callResult.Payload, callResult.UniqueId)
 			}
+			c.dispatcher.CompleteRequest(callResult.GetUniqueId()) // Remove current request from queue and send next one
 		case CALL_ERROR:
 			callError := message.(*CallError)
 			log.Debugf("handling incoming CALL ERROR [%s]", callError.UniqueId)
-			c.dispatcher.CompleteRequest(callError.GetUniqueId()) // Remove current request from queue and send next one
 			if c.errorHandler != nil {
 				c.errorHandler(ocpp.NewError(callError.ErrorCode, callError.ErrorDescription, callError.UniqueId), callError.ErrorDetails)
 			}
+			c.dispatcher.CompleteRequest(callError.GetUniqueId()) // Remove current request from queue and send next one
 		}
 	}
 	return nil
